@@ -6,6 +6,7 @@ import (
 	"fmt"
 	"math/big"
 	"strings"
+	"time"
 
 	"github.com/NethermindEth/juno/core/crypto"
 	"github.com/NethermindEth/juno/core/felt"
@@ -341,16 +342,26 @@ func realVerify(impl string, hf crypto.HashFn, root *felt.Felt, keyBits string, 
 	var err error
 	var perr error
 	var panicked bool
-	finished := lib.WithDeadline(verifyDeadline, func() {
-		perr, panicked, _ = lib.Try(func() error {
-			if impl == "legacy" {
-				v, err = trie.VerifyProof(root, &key, toLegacy(p), hf)
-			} else {
-				v, err = trie2.VerifyProof(root, &key, toTrie2(p), hf)
-			}
-			return nil
+	finished := false
+	for _, d := range []time.Duration{verifyDeadline, 2 * verifyDeadline} {
+		var v2 felt.Felt
+		var err2, perr2 error
+		var panicked2 bool
+		finished = lib.WithDeadline(d, func() {
+			perr2, panicked2, _ = lib.Try(func() error {
+				if impl == "legacy" {
+					v2, err2 = trie.VerifyProof(root, &key, toLegacy(p), hf)
+				} else {
+					v2, err2 = trie2.VerifyProof(root, &key, toTrie2(p), hf)
+				}
+				return nil
+			})
 		})
-	})
+		if finished {
+			v, err, perr, panicked = v2, err2, perr2, panicked2
+			break
+		}
+	}
 	if !finished {
 		return "hang"
 	}
